@@ -619,6 +619,11 @@ pub struct ICase {
   samples: usize,
   workers: usize,
   sched: SchedSpec,
+  /// the subscription is a member of a composite; after this many samples the
+  /// sampling thread unsubscribes the composite through one handle and goes on
+  /// sampling through a remaining clone
+  #[serde(default)]
+  unsub_after: Option<usize>,
 }
 
 /// is_closed() sampled from one thread while another emits into a _threads
@@ -657,7 +662,7 @@ impl Scenario for C17Threads {
       1 => Strategy::Seq { den: 3 },
       _ => Strategy::Pct { d: rng.range(1, 3) as u8, k: 60 },
     };
-    serde_json::to_value(ICase { workers: if root.uses_scheduler() { rng.range(1, 2) } else { 0 }, root, n_hot, emits, samples: rng.range(2, 4), sched: SchedSpec::Seeded { seed: rng.next_u64(), strategy } }).unwrap()
+    serde_json::to_value(ICase { workers: if root.uses_scheduler() { rng.range(1, 2) } else { 0 }, root, n_hot, emits, samples: rng.range(2, 4), sched: SchedSpec::Seeded { seed: rng.next_u64(), strategy }, unsub_after: if rng.chance(1, 3) { Some(rng.below(3)) } else { None } }).unwrap()
   }
   fn run(&self, case: &Value) -> Result<Outcome, String> {
     let case: ICase = serde_json::from_value(case.clone()).map_err(|e| e.to_string())?;
@@ -681,9 +686,16 @@ impl Scenario for C17Threads {
     let env = EnvS::new(hots.clone(), counters);
     let handle = ts.with_pool(|| std::panic::catch_unwind(std::panic::AssertUnwindSafe(|| build_shared(&case.root, &env).actual_subscribe(Probe(log.clone())))));
     let handle = match handle {
-      Ok(h) => Arc::new(Mutex::new(Some(h))),
+      Ok(h) => {
+        // the pipeline's subscription as the one member of a composite: the
+        // sampling thread keeps a clone of the composite as its handle
+        let mut comp = MultiSubscriptionThreads::default();
+        comp.append(BoxSubscriptionThreads::new(h));
+        Arc::new(Mutex::new(Some(comp)))
+      }
       Err(p) => return Err(format!("panic while subscribing: {}", panic_message(&*p))),
     };
+    let unsub_stamp: Arc<Mutex<Option<u64>>> = Arc::new(Mutex::new(None));
     let samples: Arc<Mutex<Vec<(u64, bool)>>> = Arc::new(Mutex::new(Vec::new()));
     let mut bodies: Vec<Body> = Vec::new();
     {
@@ -704,16 +716,24 @@ impl Scenario for C17Threads {
       let handle = handle.clone();
       let samples = samples.clone();
       let k = case.samples;
+      let unsub_after = case.unsub_after;
+      let unsub_stamp = unsub_stamp.clone();
       bodies.push(Box::new(move || {
-        for _ in 0..k {
+        let remaining = handle.lock().unwrap().as_ref().map(|c| c.clone());
+        for i in 0..k {
           harness_yield("before-sample");
-          let g = handle.lock().unwrap();
-          if let Some(h) = g.as_ref() {
+          if unsub_after == Some(i) {
+            let c = handle.lock().unwrap().take();
+            if let Some(c) = c {
+              c.unsubscribe();
+              *unsub_stamp.lock().unwrap() = Some(shared().stamp());
+            }
+          }
+          if let Some(h) = remaining.as_ref() {
             let c = h.is_closed();
             let st = shared().stamp();
             samples.lock().unwrap().push((st, c));
           }
-          drop(g);
           harness_sleep_ms(1);
         }
       }));
@@ -723,6 +743,13 @@ impl Scenario for C17Threads {
     let smp = samples.lock().unwrap().clone();
     let site = case.root.op_names().join("+");
     let mut violation = common_violation("c17", &TCase { root: case.root.clone(), n_hot: 1, threads: vec![], workers: case.workers, sched: case.sched.clone() }, &TRun { recs: recs.clone(), overlap: false, cut: None, rep: rep.clone(), sim_ns: 0 });
+    if violation.is_none() {
+      if let Some(u) = *unsub_stamp.lock().unwrap() {
+        if let Some((st, _)) = smp.iter().find(|(st, c)| *st > u && !*c) {
+          violation = Some(Violation { rule: "c17.clone-open-after-unsubscribe".into(), site: site.clone(), detail: format!("unsubscribe() of the composite returned at stamp {}, a remaining clone answered is_closed() == false at stamp {}", u, st) });
+        }
+      }
+    }
     if violation.is_none() {
       if let Some((s, _)) = smp.iter().find(|(_, c)| *c) {
         if smp.iter().any(|(st, c)| *st > *s && !*c) {
